@@ -39,7 +39,7 @@ func main() {
 			"case = (workload, crash point between two journalled I/O operations, loss choice: keep-all / lose-all / lose-data-keep-index / keep-data-lose-index / random subsets / torn sector subsets x directory choice); evaluations = restarts; distinct = hash of (workload id, crash point, loss choice); non-trivial = the crash image differs from the no-loss image or the restarted store served at least one object",
 		Workers:     14,
 		CaseTimeout: 30 * time.Minute,
-		Floors:      map[string]int64{"restarts": 8000, "objects_served_after_crash": 20000, "crash_points": 1500, "lossy_images": 4000, "torn_images": 500, "parked_sync_rounds": 60, "release_statewrites_during_sync": 20, "post_restart_uploads": 5000, "survivor_rechecks": 20000, "nested_restarts": 200, "state_versions_seen": 100},
+		Floors:      map[string]int64{"restarts": 8000, "objects_served_after_crash": 20000, "crash_points": 1500, "lossy_images": 4000, "torn_images": 500, "parked_sync_rounds": 60, "release_statewrites_during_sync": 20, "post_restart_uploads": 5000, "survivor_rechecks": 20000, "nested_restarts": 200, "state_versions_seen": 100, "inflight_uploads_finished_out_of_order": 20},
 		Assumptions: []string{"index record writes are lost whole, never torn (as the statement says)", "data writes are torn at sector granularity only", "directory namespace operations after the last directory fsync are lost as a suffix (ordered metadata)", "a sync makes durable exactly the writes issued before it started"},
 		Body:        body,
 	})
@@ -75,7 +75,13 @@ func (m *model) clone() *model {
 	return n
 }
 
+type inflightPut struct {
+	gate chan struct{}
+	done chan error
+}
+
 type wl struct {
+	inflight []*inflightPut
 	c    *run.Case
 	w    *run.Worker
 	r    *gen.Rng
@@ -87,6 +93,7 @@ type wl struct {
 	inst string
 	ctx  context.Context
 	tag  uint64
+	noInflight bool
 }
 
 func body(w *run.Worker) {
@@ -154,10 +161,71 @@ func (x *wl) putNew(size int) {
 	x.c.Logf("put %s size=%d -> %v", d, size, err)
 }
 
+// startInflight begins an upload that parks inside its unlocked copy phase
+// (space is allocated, the data has not arrived); finishInflight lets one of
+// the parked uploads complete, in PRNG order, i.e. possibly out of allocation
+// order.
+func (x *wl) startInflight() {
+	block := int(x.cfg.BlockBytes())
+	data := x.newData(x.r.Range(2, block/3+2))
+	d := gen.SHA256Digest(x.inst, data)
+	if x.ac {
+		d = gen.SHA256Digest(x.inst, x.newData(12))
+	}
+	x.m.add(d, data)
+	f := &inflightPut{gate: make(chan struct{}), done: make(chan error, 1)}
+	arrived := make(chan struct{}, 1)
+	n := 0
+	u := &asm.Upload{Data: data, Chunks: []int{1}, Yield: func() {
+		n++
+		if n == 2 {
+			arrived <- struct{}{}
+			<-f.gate
+		}
+	}}
+	go func() {
+		if x.ac {
+			f.done <- x.s.BA.Put(x.ctx, d, u.PlainBuffer())
+		} else {
+			f.done <- x.s.BA.Put(x.ctx, d, u.CASBuffer(d))
+		}
+	}()
+	select {
+	case <-arrived:
+		x.inflight = append(x.inflight, f)
+		x.w.Count("inflight_uploads_started", 1)
+	case err := <-f.done:
+		x.c.Logf("in-flight upload ended early: %v", err)
+	}
+}
+
+func (x *wl) finishInflight() {
+	if len(x.inflight) == 0 {
+		return
+	}
+	i := x.r.Intn(len(x.inflight))
+	f := x.inflight[i]
+	x.inflight = append(x.inflight[:i], x.inflight[i+1:]...)
+	close(f.gate)
+	err := <-f.done
+	if i != 0 {
+		x.w.Count("inflight_uploads_finished_out_of_order", 1)
+	}
+	x.c.Logf("in-flight upload finished: %v", err)
+}
+
 // someOps performs a few foreground operations (used while a sync round is parked).
 func (x *wl) someOps(n int) {
 	block := int(x.cfg.BlockBytes())
 	for i := 0; i < n; i++ {
+		if x.r.Chance(1, 5) && len(x.inflight) < 3 && !x.noInflight {
+			x.startInflight()
+			continue
+		}
+		if x.r.Chance(1, 4) {
+			x.finishInflight()
+			continue
+		}
 		switch k := x.r.Intn(10); {
 		case k < 5:
 			x.putNew(x.r.Range(1, block/2))
@@ -239,6 +307,9 @@ func (x *wl) runWorkload(steps int, faults bool) {
 			t.Wait()
 			finishRel()
 		}
+	}
+	for len(x.inflight) > 0 {
+		x.finishInflight()
 	}
 	finishRel()
 }
